@@ -205,6 +205,8 @@ def generate(rng, tier):
         "argv": argv,
         "method": r.choice(METHODS),
         "direct": doc(r, rnd_settings(r, hot, 4)),
+        # the mapping handed to parse_env(): the process environment itself, a subset of it, or an empty mapping
+        "env_arg": None if r.random() < 0.5 else sorted(k for k in env if r.random() < 0.5),
         "listing_seed": r.randrange(1 << 30),
         "faults": [],
         "tier": tier,
@@ -396,6 +398,8 @@ def fold(sc, root, cwd, variant=None, listing=None):
             app(s, "dcf")
     m = sc["method"]
     envd = sc["env"]
+    if m == "parse_env" and sc.get("env_arg") is not None and variant != "env-mapping-ignored-for-process-env":
+        envd = {k: sc["env"][k] for k in sc["env_arg"] if k in sc["env"]}
     cfgsrc, varsrc = env_sources(sc, envd, cwd)
     asrc = argv_sources(sc, cwd) if m.startswith("parse_args") else []
     dsrc2 = [("cfg", sc["direct"])] if m.startswith(("parse_string", "parse_object", "parse_path")) else []
@@ -423,7 +427,7 @@ def fold(sc, root, cwd, variant=None, listing=None):
     return st, touched, notes, on
 
 
-VARIANTS = ["env-config-append-as-assign", "dcf-all-dropped", "dcf-duplicates-dropped", "dcf-listing-order", "dcf-reversed", "dcf-patterns-reversed", "env-ignored", "env-forced", "env-vars-before-env-cfg", "env-after-method-source", "argv-right-to-left", "append-as-assign", "dict-item-as-assign"]
+VARIANTS = ["env-config-append-as-assign", "dcf-all-dropped", "dcf-duplicates-dropped", "dcf-listing-order", "dcf-reversed", "dcf-patterns-reversed", "env-ignored", "env-forced", "env-mapping-ignored-for-process-env", "env-vars-before-env-cfg", "env-after-method-source", "argv-right-to-left", "append-as-assign", "dict-item-as-assign"]
 
 
 # ---------------------------------------------------------------------------------------------------
@@ -440,6 +444,8 @@ def build_parser(sc):
 def run_method(p, sc):
     m = sc["method"]
     if m == "parse_env":
+        if sc.get("env_arg") is not None:
+            return p.parse_env({k: sc["env"][k] for k in sc["env_arg"] if k in sc["env"]})
         return p.parse_env(dict(sc["env"]))
     if m == "parse_env_os":
         return p.parse_env()
